@@ -36,19 +36,58 @@ def deep(x, depth=0):
     return repr(x)
 
 
+_LAZY = {"names": None}
+
+
+def _is_lazy(v):
+    """what a module or class binds to a name that is *not* a constant table: nothing yet (None) or an empty container - the usual
+    shape of a cache or of lazily built data.  Filling such a thing is not "modifying a constant table"; if it makes results depend on
+    history or schedule, the results show it."""
+    return v is None or (isinstance(v, (dict, list, set)) and len(v) == 0)
+
+
 def globals_digest():
+    """digest of the library's constants (module- and class-level data that had a value when the driver started) and of the other
+    process-global state a library must leave alone.  Names that were unbound, None or empty containers at the first call, and modules
+    loaded later, are left out (see _is_lazy)."""
+    first = _LAZY["names"] is None
+    if first:
+        _LAZY["names"] = {"modules": set(), "lazy": set(), "known": set()}
+    reg = _LAZY["names"]
     mods = {}
     for name in sorted(sys.modules):
         if name == "cvss" or name.startswith("cvss."):
+            if first:
+                reg["modules"].add(name)
+            elif name not in reg["modules"]:
+                continue
             m = sys.modules[name]
             d = {}
             for k, v in sorted(vars(m).items()):
                 if isinstance(v, type) and getattr(v, "__module__", "").startswith("cvss"):
                     # class-level (shared) data attributes of the library's classes are process-global state too
-                    d["class " + k] = dict((a, deep(x)) for a, x in sorted(vars(v).items())
-                                           if not a.startswith("__") and not callable(x) and not isinstance(x, (classmethod, staticmethod, property)))
+                    cd = {}
+                    for a, x in sorted(vars(v).items()):
+                        if a.startswith("__") or callable(x) or isinstance(x, (classmethod, staticmethod, property)):
+                            continue
+                        key = (name, k, a)
+                        if first:
+                            reg["known"].add(key)
+                            if _is_lazy(x):
+                                reg["lazy"].add(key)
+                        if key in reg["lazy"] or key not in reg["known"]:
+                            continue
+                        cd[a] = deep(x)
+                    d["class " + k] = cd
                     continue
                 if k.startswith("__") or callable(v) or type(v).__name__ == "module":
+                    continue
+                key = (name, k)
+                if first:
+                    reg["known"].add(key)
+                    if _is_lazy(v):
+                        reg["lazy"].add(key)
+                if key in reg["lazy"] or key not in reg["known"]:
                     continue
                 d[k] = deep(v)
             mods[name] = d
@@ -74,12 +113,31 @@ def globals_digest():
     return dig([mods, amb])
 
 
+def state_of(obj):
+    """the object's attributes, whether it keeps them in a __dict__ or in __slots__"""
+    st = dict(getattr(obj, "__dict__", {}) or {})
+    for klass in type(obj).__mro__:
+        for name in getattr(klass, "__slots__", ()) or ():
+            if isinstance(name, str) and name not in ("__dict__", "__weakref__") and hasattr(obj, name):
+                st[name] = getattr(obj, name)
+    return st
+
+
 def proj(obj):
-    return dig(deep(vars(obj))) if obj is not None else "-"
+    return dig(deep(state_of(obj))) if obj is not None else "-"
 
 
 OTHER = {"2": "AV:N/AC:L/Au:N/C:P/I:P/A:C", "3": "CVSS:3.1/AV:N/AC:L/PR:N/UI:N/S:U/C:H/I:L/A:N",
          "4": "CVSS:4.0/AV:N/AC:L/AT:N/PR:N/UI:N/VC:H/VI:L/VA:N/SC:N/SI:N/SA:N"}
+
+
+def behaves_differently(obj):
+    """does the object observe differently from a freshly constructed object of the same input?"""
+    try:
+        ver = {CVSS2: "2", CVSS3: "3", CVSS4: "4"}[type(obj)]
+        return dig(observe(obj, ver)) != dig(observe(type(obj)(obj.vector), ver))
+    except Exception:  # noqa
+        return True
 
 
 class CopyBehavesDifferently(Exception):
@@ -154,7 +212,9 @@ def accessor(obj, ver, name):
             else:
                 res += [bool(obj == o), bool(o == obj), bool(obj != o), bool(o != obj)]
             if proj(obj) != state0:          # checked after every operand: a later comparison may put things back
-                raise ComparisonChangedAnOperand()
+                if behaves_differently(obj):
+                    raise ComparisonChangedAnOperand()
+                state0 = proj(obj)          # attributes changed, behaviour did not: not what the property is about
         res.append(sum(1 for o in operands if isinstance(o, tuple(CLS.values())) and o in [obj]))
         # a value behaves the same after being copied (copy, deepcopy, pickle round trips); where it cannot be copied nothing is claimed
         import pickle
@@ -171,15 +231,11 @@ def accessor(obj, ver, name):
         return hash(obj) == hash(obj.clean_vector())
     if name == "internals":
         # the public intermediate quantities (Internals.tla): pure functions of the object like every other accessor
-        if ver == "4":
-            return [obj.macroVector()] + [obj.m(b) for b in ("AV", "PR", "UI", "AC", "AT", "VC", "VI", "VA", "SC", "SI", "SA", "CR", "IR", "AR", "E")] + \
-                   [obj.get_value_description(b) for b in sorted(obj.metrics)]
-        if ver == "3":
-            return [str(getattr(obj, a)) for a in ("isc_base", "isc", "esc", "modified_isc_base", "modified_isc", "modified_esc")] + \
-                   [str(obj.get_value(b)) for b in sorted(obj.metrics)] + [obj.get_value_description(b) for b in sorted(obj.metrics)]
-        return [str(obj.impact_equation()), str(obj.adjusted_impact_equation()), str(obj.base_score_equation()), str(obj.base_score_equation(adjusted_impact=True)),
-                str(obj.temporal_score_equation()), str(obj.temporal_score_equation(adjusted_impact=True))] + \
-               [str(obj.get_value(b)) for b in sorted(obj.metrics)] + [obj.get_value_description(b) for b in sorted(obj.metrics)]
+        # (they are not named by any property: where the library does not have them, there is nothing to call)
+        try:
+            return _internals(obj, ver)
+        except AttributeError:
+            return "not-available"
     if name == "mutate_json":
         d = obj.as_json()
         keys = list(d)
@@ -190,6 +246,18 @@ def accessor(obj, ver, name):
         d2["vectorString"] = None
         return "mutated"
     raise ValueError(name)
+
+
+def _internals(obj, ver):
+    if ver == "4":
+        return [obj.macroVector()] + [obj.m(b) for b in ("AV", "PR", "UI", "AC", "AT", "VC", "VI", "VA", "SC", "SI", "SA", "CR", "IR", "AR", "E")] + \
+               [obj.get_value_description(b) for b in sorted(obj.metrics)]
+    if ver == "3":
+        return [str(getattr(obj, a)) for a in ("isc_base", "isc", "esc", "modified_isc_base", "modified_isc", "modified_esc")] + \
+               [str(obj.get_value(b)) for b in sorted(obj.metrics)] + [obj.get_value_description(b) for b in sorted(obj.metrics)]
+    return [str(obj.impact_equation()), str(obj.adjusted_impact_equation()), str(obj.base_score_equation()), str(obj.base_score_equation(adjusted_impact=True)),
+            str(obj.temporal_score_equation()), str(obj.temporal_score_equation(adjusted_impact=True))] + \
+           [str(obj.get_value(b)) for b in sorted(obj.metrics)] + [obj.get_value_description(b) for b in sorted(obj.metrics)]
 
 
 class Capture(object):
@@ -289,8 +357,18 @@ def run_steps(steps, ref=None):
             label, res, exc, touched = do_step(st, objs)
             p1 = proj(objs[target]) if target is not None and objs[target] is not None else "-"
             others1 = [proj(o) for o in objs[:len(others0)]]
-            if others0 != others1 and p0 == p1:
+            # a change of an object's attributes is only the *trigger*: what counts is whether the object now behaves differently from a
+            # freshly built one of the same input (an internal memo that changes nothing observable is not what the property forbids)
+            changed = [k_ for k_, (a_, b_) in enumerate(zip(others0, others1)) if a_ != b_ and objs[k_] is not None]
+            real = [k_ for k_ in changed if behaves_differently(objs[k_])]
+            if not real:
+                p1 = p0
+            elif target in real:
+                pass
+            else:
                 p1 = "another-object-changed"
+            if target is not None and p0 != p1 and target not in real and p1 != "another-object-changed":
+                p1 = p0
             if st[0] in ("new", "fromrh") and exc == "-":
                 made.append(st)
             elif st[0] == "copy" and exc == "-" and res != "no-object":
@@ -351,7 +429,9 @@ def forced(item):
 
     def worker(k, ver, s):
         def tracer(frame, event, arg):
-            if event == "call" and frame.f_code.co_name in PIPELINE and "cvss" in frame.f_code.co_filename:
+            # gates: the entry of any function of the library called directly from a constructor (whatever the methods are called)
+            if event == "call" and "cvss" in frame.f_code.co_filename and frame.f_back is not None and frame.f_back.f_code.co_name == "__init__" \
+                    and "cvss" in frame.f_back.f_code.co_filename:
                 steps_seen[k] += 1
                 st.gate(k + 1)
             return None
@@ -420,10 +500,11 @@ def stress(item):
 
 
 def preempt(item):
-    """Preemption-bounded exploration at line granularity: call A runs under a line tracer restricted to the library; at every line
-    boundary of A (its very first, cold, execution in this process included) call B is run to completion - what a thread switch at that
-    point would do to state shared through modules and classes.  Every B result and A's result must be what the calls give on their
-    own.  (external instrumentation only: sys.settrace)"""
+    """Preemption-bounded exploration at line granularity, one preemption per execution: call A runs under a line tracer restricted to
+    the library; at every line boundary k of A - its very first, cold, execution in this process included - the process forks, and in
+    the child call B runs to completion at that point (what a thread switch there would do to state shared through modules and
+    classes), after which A runs on to its end.  The parent continues A undisturbed to the next boundary.  Every B result and every
+    A result must be what the calls give on their own.  (external instrumentation only: sys.settrace, os.fork)"""
     root = os.path.dirname(os.path.abspath(cvss.__file__))
     (va, sa), (vb, sb) = [(v, unesc(s)) for v, s in item["a"] + item["b"]]
 
@@ -431,24 +512,42 @@ def preempt(item):
         try:
             if v == "text":
                 r_ = parse_cvss_from_text(s)
-                return dig(sorted([type(r).__name__, r.vector, r.clean_vector()] for r in r_)), "-"
+                return [dig(sorted([type(r).__name__, r.vector, r.clean_vector()] for r in r_)), "-"]
             obj = CLS[v](s)
-            return dig(observe(obj, v)), "-"
+            return [dig(observe(obj, v)), "-"]
         except Exception as e:  # noqa
-            return "raised", type(e).__name__
-    state = {"busy": False, "points": 0}
-    seen = set()
+            return ["raised", type(e).__name__]
+    state = {"points": 0, "child": None}
+    seen_b, seen_a = set(), set()
 
     def tracer(frame, event, arg):
-        if state["busy"] or not frame.f_code.co_filename.startswith(root):
+        if state["child"] is not None or not frame.f_code.co_filename.startswith(root):
             return None
-        if event == "line" and state["points"] < item.get("max_points", 4000):
-            state["busy"] = True
+        if event == "line" and state["points"] < item.get("max_points", 3000):
             state["points"] += 1
+            r, w = os.pipe()
+            pid = os.fork()
+            if pid == 0:                       # the child: B runs here and now, then A runs on (untraced) to its end
+                os.close(r)
+                sys.settrace(None)
+                state["child"] = w
+                state["rb"] = call(vb, sb)
+                return None
+            os.close(w)
+            data = b""
+            while True:
+                chunk = os.read(r, 65536)
+                if not chunk:
+                    break
+                data += chunk
+            os.close(r)
+            os.waitpid(pid, 0)
             try:
-                seen.add(call(vb, sb))
-            finally:
-                state["busy"] = False
+                rb, ra_ = json.loads(data.decode("utf-8"))
+                seen_b.add(tuple(rb))
+                seen_a.add(tuple(ra_))
+            except ValueError:
+                seen_b.add(("raised", "child-died"))
         return tracer
     g0 = globals_digest()
     cap = Capture()
@@ -460,10 +559,16 @@ def preempt(item):
     finally:
         sys.settrace(None)
         sys.stdout, sys.stderr = old
+    if state["child"] is not None:            # in a child: report and leave without running anything of the parent's
+        try:
+            os.write(state["child"], json.dumps([state["rb"], ra]).encode("utf-8"))
+        finally:
+            os._exit(0)
     g1 = globals_digest()
     lab = lambda v, s: "text::%s" % esc(s) if v == "text" else "new:%s:%s" % (v, esc(s))  # noqa
     steps = [{"label": lab(va, sa), "res": ra[0], "exc": ra[1], "g": g1, "out": cap.n, "proj0": "-", "proj": "-"}]
-    steps += [{"label": lab(vb, sb), "res": r, "exc": x, "g": g1, "out": 0, "proj0": "-", "proj": "-"} for r, x in sorted(seen)]
+    steps += [{"label": lab(va, sa), "res": r, "exc": x, "g": g1, "out": 0, "proj0": "-", "proj": "-"} for r, x in sorted(seen_a)]
+    steps += [{"label": lab(vb, sb), "res": r, "exc": x, "g": g1, "out": 0, "proj0": "-", "proj": "-"} for r, x in sorted(seen_b)]
     return steps, g0, state["points"]
 
 
